@@ -33,6 +33,15 @@ mpf_get_d (mpf_srcptr src)
     return 0.0;
 
   abs_size = ABS (size);
-  exp = (EXP (src) - abs_size) * GMP_NUMB_BITS;
+  /* the exponent counts limbs and can be anything an mp_exp_t holds (a single
+     mpf_mul_2exp by 2^63 bits gives 2^57 limbs), so the bit count must not
+     be formed blindly: far out of the double range either way is enough for
+     mpn_get_d to answer infinity or zero */
+  if (EXP (src) - abs_size > LONG_MAX / GMP_NUMB_BITS)
+    exp = LONG_MAX;
+  else if (EXP (src) - abs_size < -(LONG_MAX / GMP_NUMB_BITS))
+    exp = -LONG_MAX;
+  else
+    exp = (EXP (src) - abs_size) * GMP_NUMB_BITS;
   return mpn_get_d (PTR (src), abs_size, size, exp);
 }
